@@ -27,7 +27,11 @@ impl Type {
 //@ end
 //@ fn sylt-compiler/src/name_resolution.rs is_void
 //@   in Type
-//@   mode assumed
+//@   props C03 C07
+//@   ret r
+//@   spec
+        ensures r == (*self is Resolved && self->Resolved_0 is Void), //# C03 rtype.is_void_exact
+//@   endspec
 //@ end
 }
 
